@@ -32,7 +32,7 @@ NT_LABELS = {"unaligned_start", "width_gt8", "signed", "nested_value", "array", 
 
 
 def strategy(tier: str) -> Any:
-    return cases.sv_cases(S.Features(), nrand=2)
+    return cases.sv_cases(S.Features(), nrand=2, python_only=True)
 
 
 def run_case(case: cases.SVCase, stats: Stats) -> None:
